@@ -12,7 +12,7 @@ import (
 
 // StrPool: typed strings so that each format rule passes on some and fails on others.
 var StrPool = []string{"a", "ab", "abc", "b", "ba", "测试", "测", "13540042617", "1354004261", "a@b.cc", "a@b", "1996", "996", "1996-09", "1996/09", "1996-09-28", "1996/09/28",
-	"1996-09-28 23:00:00", "1996-09-28 3:00:00", "1996/09/28 23:00:00", "1996/09/28T23.00.00", "1996-09-28_23:00:00", "1996.09.28", "15", "1,2", "1,1", "a,b", "1.5", "1x5", "{}", "{", "[1,2]", "1.2.3.4", "1.2.3", "::1", "510000000000000000", "51000000000000000X", "abcdefgh", "hello world", "ab测", "18446744073709551616", "7777777777777777777777777777777777777777", "YWJjZA==", "1,18446744073709551616", "a b", "1 2 3", "a bc", "x b", " ab", "1 2 x"}
+	"1996-09-28 23:00:00", "1996-09-28 3:00:00", "1996/09/28 23:00:00", "1996/09/28T23.00.00", "1996-09-28_23:00:00", "1996.09.28", "15", "1,2", "1,1", "a,b", "1.5", "1x5", "{}", "{", "[1,2]", "1.2.3.4", "1.2.3", "::1", "510000000000000000", "51000000000000000X", "abcdefgh", "hello world", "ab测", "18446744073709551616", "7777777777777777777777777777777777777777", "YWJjZA==", "1,18446744073709551616", "a b", "1 2 3", "a bc", "x b", " ab", "1 2 x", "Mr", "mr", "A", "Ab", "aB", "ABC", "MrB"}
 
 // ScalarRules returns candidate rule texts (without message) for a leaf / slice field type.
 func ScalarRules(rng *rand.Rand, t reflect.Type) []string {
@@ -24,7 +24,9 @@ func ScalarRules(rng *rand.Rand, t reflect.Type) []string {
 			"in=(a/b/ab/1996)", "in=(测试/'a,b'/15)", "include=(ab/测)", "prefix=a", "prefix=19", "suffix=b", "suffix=测", "phone", "email", "idcard", "ip", "ipv4", "ipv6",
 			"year", "year2month", "year2month=/", "date", "date=/", "datetime", "datetime", "datetime='/'", "datetime='/,T,.'", "datetime='-,_'", "date='.'", "int", "ints", "float", "re='^[a-z]+$'", "re='^[0-9]'", "unique", "json",
 			// arguments that end (or begin) with a blank: the blank is part of the argument
-			"prefix=a ", "suffix= b", "ints= ", "include=(a b/测 )", "in=(a b/ ab)"}
+			"prefix=a ", "suffix= b", "ints= ", "include=(a b/测 )", "in=(a b/ ab)",
+			// arguments are taken as written, letter case included
+			"prefix=Mr", "suffix=B", "in=(A/b/Ab)", "include=(AB/r)", "re='^[A-Z]+$'", "re='^[A-Z][a-z]'"}
 	case reflect.Bool:
 		return []string{"required", "in=(true)", "in=(false/x)"}
 	case reflect.Int, reflect.Int8, reflect.Int16, reflect.Int32, reflect.Int64:
